@@ -51,6 +51,8 @@ class LProc(object):
         self.go = threading.Lock()       # used as a binary semaphore: released by the scheduler, acquired here
         self.go.acquire()
         self.op = "start"            # next file-system call (or hold / done / failed / crashed)
+        self.parked_stutter = False  # parked at a call of getLockPath (invisible: shown as the mkdir it precedes)
+        self.completed_stutter = False
         self.detail = ""
         self.choice = 0
         self.thread = threading.Thread(target=self._main, daemon=True)
@@ -65,22 +67,28 @@ class LProc(object):
             self.park("hold")        # between the return of takeLocks and the call of giveLocks
             w.lock.giveLocks(locks, 0)
             self.op = "done"
+            self.completed_stutter, self.parked_stutter = self.parked_stutter, False
         except _Abort:
             self.op = "aborted"
             w.back.release()
             return
         except RuntimeError as e:
             self.op, self.detail = "failed", str(e)[:200]
+            self.completed_stutter, self.parked_stutter = self.parked_stutter, False
         except BaseException as e:  # noqa
             self.op, self.detail = "crashed", "%s: %s" % (type(e).__name__, str(e)[:200])
+            self.completed_stutter, self.parked_stutter = self.parked_stutter, False
         w.handover(self, finished=True)
 
-    def park(self, op):
-        """announce the next call, pass the baton as the schedule says, return when it is our turn"""
+    def park(self, op, stutter=False):
+        """announce the next call, pass the baton as the schedule says, return when it is our turn.
+        stutter: the call belongs to getLockPath(d, create=True) (look at / make the directory the lock directory
+        will be made in); it is a step of the schedule, but the process is shown as being at the mkdir that follows"""
         w = self.world
         if w.abort:                  # being torn down (giveLocks called while unwinding): do nothing more
             raise _Abort()
         self.op = op
+        self.completed_stutter, self.parked_stutter = self.parked_stutter, stutter
         if w.running:
             w.handover(self)
         else:                        # start-up: run to the first call, then wait for the schedule to begin
@@ -102,7 +110,10 @@ class _PathProxy(object):
     isabs = staticmethod(os.path.isabs)
 
     def exists(self, p):
-        _me().park(("exists" if p in self._w.lockdirs else "existsf") + self._w.at(p))
+        if p in self._w.parents:     # getLockPath(d, create=True) under lockDirectoryBase: is <base>/<stack> there?
+            _me().park("mkdir" + self._w.at(p), stutter=True)
+        else:
+            _me().park(("exists" if p in self._w.lockdirs else "existsf") + self._w.at(p))
         return os.path.exists(p)
 
     def isdir(self, p):
@@ -153,6 +164,26 @@ class _OsProxy(object):
         _me().park("rmdir" + self._w.at(p))
         os.rmdir(p)
 
+    def makedirs(self, p, mode=0o777, exist_ok=False):
+        # (one step; the real call makes the missing components one by one)
+        _me().park("mkdir" + self._w.at(p), stutter=True)
+        os.makedirs(p, mode, exist_ok)
+
+    def removedirs(self, p):
+        # as os.removedirs: remove the directory, then its parents, leaf first, up to the first that will not go;
+        # one scheduling point per rmdir
+        self.rmdir(p)
+        head, tail = os.path.split(p)
+        if not tail:
+            head, tail = os.path.split(head)
+        while head and tail:
+            _me().park("rmdir-parent" + self._w.at(head))
+            try:
+                os.rmdir(head)
+            except OSError:
+                break
+            head, tail = os.path.split(head)
+
     def walk(self, p):
         _me().park("walk" + self._w.at(p))
         return os.walk(p)
@@ -187,7 +218,9 @@ class World(object):
 
     def __init__(self, lockmod, base):
         self.lock = lockmod
+        self.hooks = lockmod.hooks
         self.base = base
+        self.lockbase = os.path.join(base, "locks")      # hooks.config.site.lockDirectoryBase of the `based` cases
         self.set_stacks(1)
         self.back = threading.Lock()     # binary semaphore the other way round (hand-offs strictly alternate)
         self.back.acquire()
@@ -197,14 +230,24 @@ class World(object):
         self.created = {}
         self.procs = {}
 
-    def set_stacks(self, n):
+    def set_stacks(self, n, based=False):
         self.stacks = [os.path.join(self.base, "stack" if k == 0 else "stack%d" % k) for k in range(n)]
-        self.lockdirs = [os.path.join(d, self.lock._lockDir) for d in self.stacks]
+        if based:
+            # the site keeps its locks under a directory of their own: <base>/<path of the stack>/.lockDir
+            self.hooks.config.site.lockDirectoryBase = self.lockbase
+            self.parents = [os.path.join(self.lockbase, d[1:]) for d in self.stacks]
+        else:
+            self.hooks.config.site.lockDirectoryBase = self.hooks._defaultLockDirectoryBase
+            self.parents = []
+        self.lockdirs = [os.path.join(d, self.lock._lockDir) for d in (self.parents or self.stacks)]
 
     def at(self, path):
         """suffix naming the stack a path lies in: nothing for stack 0, @k for stack k"""
         for k, d in enumerate(self.lockdirs):
             if path == d or path.startswith(d + os.sep):
+                return "" if k == 0 else "@%d" % k
+        for k, d in enumerate(self.parents):     # <lockDirectoryBase>/<stack> or a directory above it
+            if (d == path or d.startswith(path + os.sep)) and (path + os.sep).startswith(self.base + os.sep):
                 return "" if k == 0 else "@%d" % k
         raise AssertionError("eups.lock touches %s, outside every lock directory" % path)
 
@@ -213,8 +256,10 @@ class World(object):
         self.lock.glob = _GlobProxy(self)
         self.lock.time = _TimeProxy()
 
-    def reset(self, procs, nstacks=1, junk=()):
-        self.set_stacks(nstacks)
+    def reset(self, procs, nstacks=1, junk=(), based=False):
+        if os.path.isdir(self.lockbase):
+            shutil.rmtree(self.lockbase)
+        self.set_stacks(nstacks, based)
         for d, ld in zip(self.stacks, self.lockdirs):
             if os.path.isdir(ld):
                 shutil.rmtree(ld)
@@ -229,7 +274,7 @@ class World(object):
         # the order given)
         for k, names in enumerate(junk):
             if names and k < len(self.lockdirs):
-                os.mkdir(self.lockdirs[k])
+                os.makedirs(self.lockdirs[k])
                 for i, nm in enumerate(names):
                     f = os.path.join(self.lockdirs[k], nm)
                     open(f, "w").close()
@@ -249,6 +294,7 @@ class World(object):
         self.sched = [tuple(x) for x in sched]
         self.k = 0
         self.eff = []
+        self.stut = []
         self.trace = [self.observe()]
         self.drain = drain
         self.ndrain = 0
@@ -280,12 +326,14 @@ class World(object):
             lp = self.procs[pid]
             if lp.op in TERMINAL:
                 self.trace.append(self.trace[-1])        # a finished process does nothing
+                self.stut.append(False)
                 continue
             return lp, ch
 
     def handover(self, me, finished=False):
         if me is not None:
             self.trace.append(self.observe())            # the step of `me` is complete
+            self.stut.append(bool(me.completed_stutter))
         nx = self._next()
         if nx is None:
             if me is None:
@@ -358,11 +406,11 @@ def run_cases(cases, drain_limit=400):
         w = World(lock, base)
         w.install()
         for c in cases:
-            w.reset(c["procs"], int(c.get("stacks", 1)), c.get("junk") or ())
+            w.reset(c["procs"], int(c.get("stacks", 1)), c.get("junk") or (), bool(c.get("based")))
             eff, trace = w.run_schedule(norm_schedule(c["schedule"]), bool(c.get("drain")), drain_limit)
             detail = {str(pid): lp.detail for pid, lp in w.procs.items() if lp.detail}
             w.teardown()
-            out.append({"schedule": eff, "trace": trace, "detail": detail})
+            out.append({"schedule": eff, "trace": trace, "detail": detail, "stutter": list(w.stut)})
     finally:
         shutil.rmtree(base, ignore_errors=True)
     return out
